@@ -12,7 +12,7 @@ CONFIG = {
     'C04': dict(streams=[('bu_wf', 1120), ('mixed_wf', 160), ('newreq', 160), ('abort_bu', 240)], keep='ov'),
     'C05': dict(streams=[('inj_hidden', 1200), ('siblings', 240), ('td_wf', 160)], keep='om'),
     'C06': dict(streams=[('inj_overlap', 1200), ('td_wf', 160)], keep='om'),
-    'C07': dict(streams=[('inj_cycle', 1200)], keep='ov'),
+    'C07': dict(streams=[('inj_cycle', 1040), ('reorder_cycle', 240)], keep='ov'),
     'C08': dict(streams=[('td_wf', 560), ('bu_wf', 320), ('multi', 80), ('panic', 240), ('abort_bu', 120)], keep='od'),
     'C09': dict(streams=[('td_coarse', 880), ('bu_wf', 320), ('multi', 80)], keep='dv'),
     'C16': dict(streams=[('td_wf', 240), ('bu_wf', 240), ('mixed_wf', 120), ('newreq', 160)], keep='oevdm', two_process=True),
@@ -40,6 +40,9 @@ def make_case(rng, stream, big=False):
     if stream == 'abort_bu':
         p, steps, meta = P.gen_abort_bu_program(rng)
         return p, steps, norm_meta(meta, 'mixed')
+    if stream == 'reorder_cycle':
+        p, steps = P.gen_reorder_cycle_program(rng)
+        return p, steps, norm_meta({}, 'td')
     if stream == 'multi':
         p = P.gen_multi_program(rng)
         steps = [['E', '0', '1'], ['S', '1', 'q', '0'], ['E', '0', '2'], ['S', '1', 'q', '0'], ['S', '1', 'q', '0']]
@@ -454,6 +457,12 @@ def corpus(prop):
         out.append(mk({0: ('R', 0, 0, ('I', ('l', 2), ('W', 10, 0, ('k', 3), ('D',)), ('D',))), 1: ('R', 1, 0, ('I', ('l', 2), ('W', 10, 0, ('k', 4), ('D',)), ('D',))), 9: pan},
                       [['E', '3', '1'], ['S', '1', 'q', '9'], ['E', '3', '0'], ['E', '0', '1'], ['E', '1', '0'], ['S', '2', 'q', '0', 'q', '1'],
                        ['E', '0', '0'], ['E', '1', '1'], ['S', '1', 'q', '1']], kind='panic', generated={10: (None, 0)}))
+    if prop == 'C20':
+        # the guarding read comes before the conditional require in creation order, although the task reads the same source again
+        # afterwards: after the role flip the stale require must not be followed (a re-added edge must keep its place)
+        out.append(mk({0: ('R', 0, 0, ('I', ('l', 1), ('Q', 1, 0, ('R', 0, 0, ('D',))), ('R', 0, 0, ('D',)))),
+                       1: ('R', 0, 0, ('I', ('l', 2), ('Q', 0, 0, ('D',)), ('D',)))},
+                      [['E', '0', '0'], ['S', '1', 'q', '0'], ['E', '0', '1'], ['S', '1', 'q', '0']], kind='roles'))
     # O4 (recorded finding for C03)
     if prop in ('C03',):
         p = P.Prog(); p.tasks = {2: ('Q', 1, 0, ('D',)), 1: ('R', 1, 0, ('D',))}; p.sources = [1]
